@@ -137,7 +137,7 @@ def rel_jobs(tier, seed, entry_attack="HSqlAttackRel", entry_near="HSqlNearRel",
     step = qstep if tier == "quick" else max(2, qstep // 8)
     sel = [d for i, d in enumerate(allg) if i % step == seed % step]
     jobs = [job(entry_attack, list(d), safety=kw.get("safety", True), witness_every=6, max_witness=1) for d in sel]
-    for i in range(46):
+    for i in range(NNEAR):
         for sep in ((0, 2) if tier == "quick" else (0, 1, 2, 3)):
             jobs.append(job(entry_near, [i, sep], safety=kw.get("safety", True), witness_every=6, max_witness=1))
     return jobs
@@ -191,7 +191,7 @@ def c12(tier, seed):
     c.run_group("W-virtual-quote", SQLI, jobs, expect_labels=["checked"])
     c.run_group("T-relations", SQLT, rel_jobs(tier, seed), expect_labels=["checked"])
     jobs = []
-    for i in range(46):
+    for i in range(NNEAR):
         for sep in ((0,) if tier == "quick" else (0, 1, 2, 3)):
             for q in range(2):
                 for my in range(2):
@@ -369,6 +369,9 @@ def c19(tier, seed):
         for zeros in ((1, 4, 5, 6, 7, 8, 12) if tier == "quick" else range(1, 16)):
             for n in ((2, 3) if tier == "quick" else (1, 2, 3, 4)):
                 jobs.append(job("HDecodeT", [n, zeros, hexa], witness_every=10))
+    for which in range(7):
+        for n in range(0, 5 if tier == "quick" else 7):
+            jobs.append(job("HDecodeBig", [n, which], witness_every=10))
     c.run_group("T-decoder-zeros", URL, jobs, expect_labels=["checked"])
     jobs = []
     schemes = range(4)
@@ -610,13 +613,13 @@ def c09(tier, seed):
         return engine_to_native_ok(v, nat_res)
 
     jobs = []
-    for u in range(39):
+    for u in range(49):
         for pre in ((0, 1, 4) if tier == "quick" else (0, 1, 2, 3, 4, 5, 6)):
             for holes in (0, 1):
                 jobs.append(job("HRepeatSqli", [u, holes, K, pre, PB, SL], safety=True, witness_every=50, max_witness=1, maxsteps=60000000))
-    for u in range(37):
-        for pre in ((0, 1, 4) if tier == "quick" else (0, 1, 2, 3, 4, 5, 6)):
-            for holes in ((0, 1) if pre < 4 else (0,)):  # inside a URL attribute value a free byte multiplies the decoder's paths by the repetition count
+    for u in range(41):
+        for pre in ((0, 1, 4, 7, 8, 9, 10) if tier == "quick" else range(11)):
+            for holes in ((0, 1) if pre < 4 else (0,)):  # (terminator suffixes 7-10: lone dash / percent / bracket far from the opener) inside a URL attribute value a free byte multiplies the decoder's paths by the repetition count
                 jobs.append(job("HRepeatXss", [u, holes, K, pre, PB, SL], safety=True, witness_every=50, max_witness=1, maxsteps=60000000))
     c.run_group("T-families", COST, jobs, expect_labels=["checked"], confirm=confirm)
     jobs = []
@@ -647,6 +650,7 @@ def c09(tier, seed):
 
 SQLT = BASE + H("h_sqli.go", "h_sql_tpl.go")
 NCTX, NATK, NTAIL, NSEP = 10, 52, 9, 4
+NNEAR = 65
 GRAMMAR = os.path.join(VERIF, "grammar", "sqli.json")
 
 
